@@ -227,3 +227,156 @@ Proof.
   - intros x; apply dle_refl.
   - intros x. split; [|auto]. unfold lookrel. rewrite lookup_with_out. destruct (lookup _ x); [apply ole_refl|exact I].
 Qed.
+
+(** ---- Suicide / opSelfdestruct ---- *)
+Definition r_suicide (r : rstate) (a : addr) : rstate :=
+  r_set r a {| rb := 0; rn := rn (r_get r a); rc := rc (r_get r a); rs := true |}.
+
+Lemma get_or_new_some s a o : lookup s a = Some o -> get_or_new s a = cached s a /\ the_obj s a = o.
+Proof. intros H. unfold get_or_new, the_obj. rewrite H. auto. Qed.
+
+Lemma sim_suicide s r a o : R s r -> lookup s a = Some o -> R (suicide s a) (r_suicide r a).
+Proof.
+  intros HR Hl. unfold suicide. rewrite Hl. destruct (get_or_new_some s a o Hl) as [E1 E2]. rewrite <- E1.
+  pose proof (the_obj_match s r a HR) as M. rewrite E2 in M. destruct M as (A&B&C&D).
+  pose proof (the_obj_good s r a HR) as G. rewrite E2 in G. destruct G as (G1&G2&G3).
+  apply (mutator_R s r (r_suicide r a) a (ESuicide a (suicided o) (bal o)) (w_bal (w_sui o true) 0) {| rb := 0; rn := rn (r_get r a); rc := rc (r_get r a); rs := true |} HR eq_refl).
+  - reflexivity.
+  - intros x Hx. apply r_set_off; exact Hx.
+  - apply r_set_same.
+  - repeat split; simpl; auto.
+  - intros k. simpl. pose proof (the_obj_sto s r a k HR) as H. rewrite E2 in H. exact H.
+  - split; [simpl; discriminate|]. split; [exact G2 | exact G3].
+  - simpl. discriminate.
+Qed.
+
+Lemma sim_selfdestruct mx s r a b : R s r -> R (selfdestruct s a b) (rrun mx (OSuicide a b) r).
+Proof.
+  intros HR. unfold selfdestruct. simpl. pose proof (R_acc s r HR a) as Ha.
+  destruct (lookup s a) as [o|] eqn:Hl, (r_accs r a) as [x|] eqn:Hx; try contradiction; [|exact HR].
+  destruct Ha as (Hb&_). rewrite Hb.
+  assert (HR1 : R (add_balance (cached s a) b (rb x)) (r_add r b (rb x))) by (apply sim_add_balance, sim_cached; exact HR).
+  assert (Hl1 : exists o1, lookup (add_balance (cached s a) b (rb x)) a = Some o1).
+  { pose proof (R_acc _ _ HR1 a) as H. unfold r_add in H.
+    destruct (lookup (add_balance (cached s a) b (rb x)) a); [eauto|].
+    destruct (Z.eq_dec a b) as [->|Hne]; [rewrite r_set_same in H; contradiction|].
+    rewrite r_set_other, Hx in H by assumption. contradiction. }
+  destruct Hl1 as [o1 Hl1]. apply (sim_suicide _ _ a o1 HR1 Hl1).
+Qed.
+
+(** ---- CreateAccount / evm.create ---- *)
+Lemma create_account_none s a : lookup s a = None -> create_account s a = get_or_new s a.
+Proof.
+  intros Hl. unfold create_account, create_object, get_or_new. rewrite Hl, (cached_none s a Hl). reflexivity.
+Qed.
+
+Lemma sim_reset s r a p :
+  R s r -> lookup s a = Some p -> nonce p = 0 -> code p = 0 -> suicided p = false -> r_wr r a = false ->
+  R (create_account s a) r.
+Proof.
+  intros HR Hl Hn Hc Hs Hw. unfold create_account, create_object. rewrite Hl.
+  set (o' := w_bal (new_obj 0 0 0) (bal p)).
+  set (s' := set_obj (set_obj (push (cached s a) (EReset a p)) a (new_obj 0 0 0)) a o').
+  assert (T : txs s' = txs s) by (subst s'; unfold set_obj; sdb_simp; rewrite ?push_txs; apply cached_txs).
+  assert (Cu : cur_store s' = cur_store s) by (subst s'; rewrite !cur_store_set_obj, push_cur; apply cached_cur).
+  pose proof (R_acc s r HR a) as Ha. rewrite Hl in Ha. destruct (r_accs r a) as [x|] eqn:Hx; [|contradiction].
+  destruct Ha as (A&B&C&D).
+  assert (Hsx : rs (r_get r a) = false) by (unfold r_get; rewrite Hx; congruence).
+  destruct (R_wr s r HR a Hw Hsx) as [W1 W2]. specialize (W2 p Hl).
+  destruct (R_good s r HR a p Hl) as (G1&G2&G3).
+  assert (Hst : forall k, st (txs s) a p k = stor (txs s) a k).
+  { intros k. unfold st. destruct (dirty p k) as [v|] eqn:Hd.
+    - rewrite (W2 k v Hd). unfold comm. destruct (origin p k) eqn:Ho; [apply (G2 k w Ho)|reflexivity].
+    - unfold comm. destruct (origin p k) eqn:Ho; [apply (G2 k w Ho)|reflexivity]. }
+  apply (R_step s s' r r HR T).
+  - subst s'. unfold set_obj; sdb_simp. rewrite ?push_aux, cached_aux. apply HR.
+  - intros y. destruct (Z.eq_dec y a) as [->|Hne].
+    + right. unfold updd. exists o', x. rewrite T, Cu.
+      assert (Hd : dirt s' a = dirt s a) by (subst s'; unfold set_obj; sdb_simp; rewrite ?push_dirt; simpl; rewrite cached_dirt; reflexivity).
+      split; [subst s'; apply lookup_set_same|]. split; [exact Hx|].
+      split; [subst o'; repeat split; simpl; congruence|].
+      split; [intros c0 Hc0; rewrite Hd in Hc0; apply (R_cnt s r HR a c0 Hc0)|].
+      split.
+      { intros Hcl. rewrite Hd in Hcl. pose proof (R_written s r HR a p Hl Hcl) as Hwr.
+        unfold obj_written in *. rewrite Hs in Hwr. subst o'. simpl. destruct Hwr as [Hw1 Hw2]. split.
+        - rewrite Hw1. unfold acc_of_obj. simpl. rewrite Hn, Hc. reflexivity.
+        - intros k. unfold st, comm. simpl. symmetry. apply W1. }
+      split; [intros k; rewrite (R_sto s r HR a k), Hl, Hst; reflexivity|].
+      split.
+      { subst o'. split; [|split]; simpl; try discriminate; [|intros k Hk; contradiction].
+        intros _ k _. unfold comm. simpl. symmetry. apply W1. }
+      intros _ _. split; [exact W1|]. intros k v Hv. discriminate.
+    + left. unfold unch. rewrite Cu.
+      split; [subst s'; rewrite !lookup_set_other by assumption; rewrite lookup_push; apply lookup_cached|].
+      split; [subst s'; unfold set_obj; sdb_simp; rewrite ?push_dirt; simpl; apply (f_equal (fun f => f y) (cached_dirt s a))|].
+      repeat split; auto.
+Qed.
+
+Lemma sim_evm_create mx s r a : R s r -> wf_create r a = true -> R (evm_create s a) (rrun mx (OCreate a) r).
+Proof.
+  intros HR Hwf. unfold evm_create. simpl. unfold wf_create in Hwf. pose proof (R_acc s r HR a) as Ha.
+  destruct (lookup s a) as [o|] eqn:Hl, (r_accs r a) as [x|] eqn:Hx; try contradiction.
+  - destruct Ha as (A&B&C&D). rewrite B, C.
+    destruct (negb (rn x =? 0) || negb (rc x =? 0)) eqn:Hcol; [apply sim_cached; exact HR|].
+    apply orb_false_iff in Hcol as [Hn Hc]. apply negb_false_iff, Z.eqb_eq in Hn. apply negb_false_iff, Z.eqb_eq in Hc.
+    apply andb_true_iff in Hwf as [Hs Hw]. apply negb_true_iff in Hs. apply negb_true_iff in Hw.
+    assert (HR1 : R (create_account s a) r) by (apply (sim_reset s r a o HR Hl); congruence).
+    eapply R_req; [apply (sim_set_nonce _ _ a 1 HR1)|].
+    split; [|repeat split; auto]. intros y. unfold r_set; simpl. unfold upd. destruct (Z.eqb y a); [|reflexivity].
+    unfold r_get. rewrite Hx. unfold rw_n. simpl. rewrite Hc, Hs. reflexivity.
+  - rewrite (create_account_none s a Hl).
+    eapply R_req; [apply (sim_set_nonce _ _ a 1 (sim_get_or_new s r a HR))|].
+    split; [|repeat split; auto]. intros y. unfold r_set; simpl. unfold upd. destruct (Z.eqb_spec y a) as [->|]; [|reflexivity].
+    unfold r_get at 1. simpl. rewrite Z.eqb_refl. unfold r_get. rewrite Hx. reflexivity.
+Qed.
+
+(** ---- journaled tx data ---- *)
+Lemma sim_aux s r e x' r' :
+  R s r -> dirtied e = None -> auxeq x' (r_aux r') ->
+  (forall a, r_accs r' a = r_accs r a) -> (forall a k, r_stor r' a k = r_stor r a k) -> (forall a, r_wr r' a = r_wr r a) ->
+  R (with_aux (push s e) x') r'.
+Proof.
+  intros HR Hd Hx A B C. apply (R_step s _ r r' HR).
+  - sdb_simp. apply push_txs.
+  - exact Hx.
+  - intros y. left. unfold unch. rewrite lookup_with_aux, lookup_push. sdb_simp. rewrite push_dirt, Hd.
+    unfold cur_store. sdb_simp. rewrite push_cache, push_txs. repeat split; auto.
+Qed.
+
+Lemma sim_add_log mx s r : R s r -> R (add_log s) (rrun mx OAddLog r).
+Proof.
+  intros HR. unfold add_log. simpl. apply (sim_aux s r ELog _ _ HR eq_refl); auto.
+  destruct (R_aux s r HR) as (A&B&C&D). repeat split; simpl; auto. congruence.
+Qed.
+
+Lemma sim_set_refund s r g :
+  R s r -> R (set_refund s g) (r_with_aux r (w_refund (r_aux r) g)).
+Proof.
+  intros HR. unfold set_refund. apply (sim_aux s r (ERefund (refund (aux s))) _ _ HR eq_refl); auto.
+  destruct (R_aux s r HR) as (A&B&C&D). repeat split; simpl; auto.
+Qed.
+
+Lemma sim_access_addr s r a : R s r -> R (access_addr s a) (r_access_addr r a).
+Proof.
+  intros HR. unfold access_addr, r_access_addr. destruct (R_aux s r HR) as (A&B&C&D).
+  destruct (al (aux s) a) eqn:Ha.
+  - eapply R_req; [exact HR|]. repeat split; simpl; auto.
+    intros x. unfold upd. destruct (Z.eqb_spec x a) as [->|]; [|reflexivity].
+    transitivity (al (aux s) a); [symmetry; apply C | exact Ha].
+  - apply (sim_aux s r (EAccAddr a) _ _ HR eq_refl); auto.
+    repeat split; simpl; auto. intros x. unfold upd. destruct (Z.eqb x a); auto.
+Qed.
+
+Lemma sim_access_slot mx s r a k : R s r -> R (access_slot s a k) (rrun mx (OAccessSlot a k) r).
+Proof.
+  intros HR. unfold access_slot. simpl.
+  pose proof (sim_access_addr s r a HR) as HR1. set (s1 := access_addr s a) in *. set (r1 := r_access_addr r a) in *.
+  destruct (R_aux s1 r1 HR1) as (A&B&C&D).
+  destruct (als (aux s1) a k) eqn:Ha.
+  - eapply R_req; [exact HR1|]. repeat split; simpl; auto.
+    intros x y. destruct (Z.eqb_spec x a) as [->|]; simpl; [|reflexivity].
+    destruct (Z.eqb_spec y k) as [->|]; simpl; [|reflexivity].
+    transitivity (als (aux s1) a k); [symmetry; apply D | exact Ha].
+  - apply (sim_aux s1 r1 (EAccSlot a k) _ _ HR1 eq_refl); auto.
+    split; [exact A|]. split; [exact B|]. split; [exact C|]. simpl. intros x y. destruct (Z.eqb x a && Z.eqb y k); [reflexivity | apply D].
+Qed.
